@@ -19,7 +19,7 @@ from symx.sstr import SStr
 ID = 'C20'
 
 POOL = [('M', 'motor'), ('F', 'flywheel'), ('A', 'spur'), ('B', 'spur'), ('C', 'spur'), ('W', 'worm'), ('H', 'wheel'),
-        ('G', 'flywheel')]
+        ('G', 'flywheel'), ('V', 'worm'), ('K', 'wheel')]
 
 
 class Assemble(HarnessBase):
@@ -230,6 +230,12 @@ FIXED = [
     ((('joint', 'M', 'W', None), ('worm', 'W', 'H', 0.05), ('joint', 'H', 'A', None)), (('worm', 'W', 'H', 0.6),)),
     ((('joint', 'M', 'H', None), ('worm', 'H', 'W', 0.1), ('joint', 'W', 'A', None)), ()),              # wheel drives
     ((('joint', 'F', 'W', None), ('worm', 'W', 'H', 0.6), ('joint', 'M', 'A', None)), ()),              # flagged worm off-chain
+    # two worm stages, the self-locking one first / last / both / none
+    ((('joint', 'M', 'W', None), ('worm', 'W', 'H', 0.6), ('joint', 'H', 'V', None), ('worm', 'V', 'K', 0.05)), ()),
+    ((('joint', 'M', 'W', None), ('worm', 'W', 'H', 0.05), ('joint', 'H', 'V', None), ('worm', 'V', 'K', 0.6)), ()),
+    ((('joint', 'M', 'W', None), ('worm', 'W', 'H', 0.6), ('joint', 'H', 'V', None), ('worm', 'V', 'K', 0.6)), ()),
+    ((('joint', 'M', 'W', None), ('worm', 'W', 'H', 0.05), ('joint', 'H', 'V', None), ('worm', 'V', 'K', 0.05)), ()),
+    ((('joint', 'M', 'W', None), ('worm', 'W', 'H', 0.6), ('joint', 'H', 'V', None)), ()),             # unmated worm last
     ((('joint', 'M', 'A', None), ('joint', 'A', 'B', None), ('joint', 'B', 'A', None)), ()),              # cycle
     ((('joint', 'A', 'M', None), ('joint', 'M', 'F', None), ('gear', 'F', 'A', 0.9)), ()),               # failing calls
 ]
@@ -262,9 +268,9 @@ REQUIRED_TRIGGERS = {'quick': ('chain.elements_are_the_drive_chain', 'chain.Name
                                'chain.elements_read_only', 'chain.self_locking_read_only',
                                'chain.later_declarations_change_nothing', 'chain.elements_is_a_tuple')}
 BOUNDS = {
-    'quick': '10 hand-written + 120 seeded sequences of 1..6 relation declarations (joints, gear matings, worm matings in '
+    'quick': '15 hand-written (incl. two worm stages with the self-locking one first/last/both/none) + 120 seeded sequences of 1..6 relation declarations (joints, gear matings, worm matings in '
              'both orientations, friction on both sides of the self-locking threshold; failing calls and re-declarations '
-             'that re-route the chain included) over a pool of 8 elements, followed by 0..2 declarations after assembly; '
+             'that re-route the chain included) over a pool of 10 elements (two worm gears, two worm wheels), followed by 0..2 declarations after assembly; '
              'element names are symbolic strings: the solver enumerates every equality pattern of the names on the chain',
     'thorough': '900 seeded sequences of 1..13 declarations',
 }
